@@ -1018,11 +1018,42 @@ impl Compiler {
 /// negative multiples (e.g. `-6` for `multipleOf 3`) would be rejected.
 /// Divisibility is independent of sign.
 /// https://github.com/guidance-ai/llguidance/issues/222
+///
+/// `MultipleOf(coef, exp)` also only matches literals with no fractional digits
+/// or exactly `exp` of them, so `0.5` and `0.500` would be rejected for
+/// `multipleOf 0.25`. A literal with `k < exp` fractional digits is a multiple
+/// of `coef * 10^-exp` iff it is a multiple of
+/// `coef / gcd(coef, 10^(exp-k)) * 10^-k`; longer ones are allowed by letting
+/// zeros follow the `exp`-digit form.
 fn signed_multiple_of_ast(coef: u32, exp: u32) -> RegexAst {
-    RegexAst::Concat(vec![
-        RegexAst::Regex("-?".to_string()),
-        RegexAst::MultipleOf(coef, exp),
-    ])
+    let mut forms = vec![];
+    if coef != 0 {
+        for k in 0..exp {
+            let p = 10u64.saturating_pow(exp - k);
+            let (mut a, mut b) = (coef as u64, p);
+            while b != 0 {
+                (a, b) = (b, a % b);
+            }
+            forms.push(RegexAst::MultipleOf((coef as u64 / a) as u32, k));
+        }
+    }
+    forms.push(RegexAst::MultipleOf(coef, exp));
+    // zeros after the last significant fractional digit
+    forms.push(if exp == 0 {
+        RegexAst::Concat(vec![
+            RegexAst::MultipleOf(coef, 0),
+            RegexAst::Regex("\\.0+".to_string()),
+        ])
+    } else {
+        RegexAst::And(vec![
+            RegexAst::Concat(vec![
+                RegexAst::MultipleOf(coef, exp),
+                RegexAst::Regex("0+".to_string()),
+            ]),
+            RegexAst::Regex("[0-9]+\\.[0-9]+".to_string()),
+        ])
+    });
+    RegexAst::Concat(vec![RegexAst::Regex("-?".to_string()), RegexAst::Or(forms)])
 }
 
 fn always_non_empty(ast: &RegexAst) -> bool {
